@@ -181,6 +181,14 @@ func (c *Checker) Guided(src *Source, parser *ssa.Function, it string, root stri
 				cond = " [when " + clip(strings.Join(cs, " & "), 300) + "]"
 			}
 		}
+		if opts.ExpectReject {
+			if po.ErrNil == pathint.No {
+				res.Rejections++
+			} else {
+				res.Problems = append(res.Problems, "the parser can return without error on this malformed stream"+cond+" [path: "+clip(st.PathDesc(), 300)+"]")
+			}
+			return
+		}
 		if po.ErrNil == pathint.No {
 			res.Problems = append(res.Problems, "the parser can reject this stream"+cond+" [path: "+clip(st.PathDesc(), 300)+"]")
 			return
@@ -207,6 +215,15 @@ func (c *Checker) Guided(src *Source, parser *ssa.Function, it string, root stri
 			res.ConsumedBad = append(res.ConsumedBad, "the parser's final cursor is unknown"+cond)
 		}
 	})
+	if opts.ExpectReject {
+		if sum.Truncated {
+			res.Problems = append(res.Problems, "path budget exceeded while interpreting the parser on this stream")
+		}
+		if res.Rejections == 0 && len(res.Problems) == 0 {
+			res.Problems = append(res.Problems, "no rejecting path of the parser was reached on this malformed stream")
+		}
+		return res
+	}
 	res.Problems = append(res.Problems, o.problems...)
 	if sum.Truncated {
 		res.Problems = append(res.Problems, "path budget exceeded while interpreting the parser on this stream")
